@@ -41,6 +41,16 @@ func init() {
 				}
 				c.Call.DAG[i] = layer
 			}
+			if nl >= 1 && pct(t, "wide_layer", 4) {
+				// one very wide layer (names repeat): widths at and around powers of two
+				li := uni(t, "wide_which", 0, nl-1)
+				w := []int{31, 32, 33, 63, 64, 65, 127, 128, 129, 255, 256, 257, 258, 259, 300, 511, 512, 513, 515, 700}[uni(t, "wide_width", 0, 19)]
+				layer := make([]string, w)
+				for j := range layer {
+					layer[j] = c.Rules[(j*7+li)%len(c.Rules)].Name
+				}
+				c.Call.DAG[li] = layer
+			}
 			c.Gates = map[string]int{}
 			if nl >= 2 && pct(t, "victims", 75) {
 				nv := uni(t, "nvictims", 1, 2)
@@ -65,6 +75,11 @@ func init() {
 				x.Class("pool")
 			}
 			x.Class(fmt.Sprintf("layers:%d", len(c.Call.DAG)))
+			for _, l := range c.Call.DAG {
+				if len(l) > 30 {
+					x.Class("very-wide-layer")
+				}
+			}
 			have := map[string]bool{}
 			fails := map[string]bool{}
 			for _, r := range c.Rules {
